@@ -43,7 +43,7 @@ def handle (line : String) : String :=
     | "romfs-parse" | "romfs-lookup" | "romfs-rep" => handleRomfs cmd args
     | "tmd-load" | "tmd-roundtrip" | "tmd-ser" => handleTmd cmd args
     | "exefs-parse" | "exefs-build" | "exefs-norm" | "exefs-lookup" => handleExefs cmd args
-    | "save-run" | "cmac" => handleSave cmd args
+    | "save-run" | "save-hyp" | "cmac" => handleSave cmd args
     | "nand-open" | "nand-ops" | "nand-hdr" => handleNand cmd args
     | "close-run" => handleClose args
     | "sched-check" => handleSched args
